@@ -107,3 +107,14 @@ Example C03_ex3 :
   valid_model (Some 1) (Some 3) true false [Some 1; Some 3; Some 2; None; Some 0]
   = Flags [GOOD; FAIL; GOOD; MISSING; FAIL].
 Proof. vm_compute. reflexivity. Qed.
+
+(* TRANSLATOR TIE: the flag-assignment skeleton generated from the CURRENT source of gross_range_test
+   (Generated.skel_gross_range_test: masks, comparison operators, flag constants, the order MISSING /
+   SUSPECT / FAIL and the guard `suspect_span is not None`), given its numpy meaning by Skel.run_steps in the
+   environment inp := xs, sspan := (flo, fhi), uspan := s, yields exactly the specification's flags *)
+From IoosQc Require Import Skel SkelProofs.
+Theorem C03_source_skeleton : forall flo fhi s xs,
+  run_steps (env_gross flo fhi s xs) skel_gross_range_test (all_flags (length xs) GOOD)
+  = map (gross_pt flo fhi s) xs.
+Proof. exact skel_gross_flags. Qed.
+Print Assumptions C03_source_skeleton.
